@@ -330,6 +330,7 @@ def run(chk, repo, tier):
     closed_protection_sets(chk, D11, repo)
     run_d12_d14(chk, repo)
     run_d15_d16(chk, repo)
+    run_d17(chk, repo)
     # ---------------------------------------------------------------- D6 closure of keep / remove sets
     D6 = chk.rule('D6', 'sets grown from the dependency graph in a single pass over a copy use a transitive traversal '
                         '(not one-step adjacency)', floor=2)
@@ -775,3 +776,47 @@ def run_d15_d16(chk, repo):
                                       'A_CENTRAL(TIME) as symbols they depend on; dependencies() stops at the ODE system')
     if n == 0:
         raise AnalysisError('D16: no symbol accessor found')
+
+
+def run_d17(chk, repo):
+    """D17: remove_symbol_definitions deletes definitions the edited statement no longer needs: only assignments BEFORE that
+    statement can be such definitions; a later assignment of the same symbol defines the value other readers (or the model
+    output) see. The collection of candidate indices is bounded by the index of the edited statement"""
+    D17 = chk.rule('D17', 'Statements.remove_symbol_definitions: candidate definitions are searched strictly before the edited '
+                          'statement (range / slice / comparison with its index)', floor=1)
+    sm = repo.module('pharmpy.model.statements')
+    cls = sm.classes.get('Statements')
+    f = cls.methods.get('remove_symbol_definitions') if cls else None
+    if f is None:
+        raise AnalysisError('D17: Statements.remove_symbol_definitions not found')
+    idx = {a.targets[0].id for a in ast.walk(f.node) if isinstance(a, ast.Assign) and len(a.targets) == 1
+           and isinstance(a.targets[0], ast.Name) and isinstance(a.value, ast.Call) and isinstance(a.value.func, ast.Attribute)
+           and a.value.func.attr == 'index'}
+    if not idx:
+        raise AnalysisError('D17: index of the edited statement not found')
+    # the iteration that selects assignments of the given symbols: a for loop or comprehension whose body / condition tests
+    # `<stat>.symbol in <symbols>`
+    def selects(node):
+        return any(isinstance(c, ast.Compare) and len(c.ops) == 1 and isinstance(c.ops[0], ast.In)
+                   and isinstance(c.left, ast.Attribute) and c.left.attr == 'symbol' for c in ast.walk(node))
+    sites = []
+    for n in ast.walk(f.node):
+        if isinstance(n, ast.For) and selects(n):
+            sites.append((n, n.iter, [n]))
+        elif isinstance(n, (ast.SetComp, ast.ListComp, ast.GeneratorExp)) and selects(n):
+            sites.append((n, n.generators[0].iter, [n]))
+    if not sites:
+        raise AnalysisError('D17: the selection of candidate definitions was not recognised')
+    for node, it, _ in sites:
+        bounded_iter = any(isinstance(x, ast.Name) and x.id in idx for x in ast.walk(it))
+        bounded_test = any(isinstance(c, ast.Compare) and any(isinstance(o, (ast.Lt, ast.LtE, ast.Gt, ast.GtE)) for o in c.ops)
+                           and any(isinstance(x, ast.Name) and x.id in idx for x in ast.walk(c)) for c in ast.walk(node))
+        ok = bounded_iter or bounded_test
+        chk.instance(D17, f'remove_symbol_definitions: candidates from `{unparse(it)[:50]}` bounded by the edited statement: {ok}')
+        if not ok:
+            chk.violation(D17, sm.rel, f.qualname, f'candidates over {unparse(it)[:60]}',
+                          'assignments after the edited statement are candidates for removal as well: a re-assignment of the '
+                          'symbol that nothing else reads (a final output) is deleted with its dependencies',
+                          line=node.lineno,
+                          witness='KA = ...; <ode system using KA>; KA = KA*2 (output): removing the use of KA from the ODE '
+                                  'statement deletes the last assignment, the output KA becomes undefined')
